@@ -2059,6 +2059,52 @@ func registerMisc() {
 	I["runtime.KeepAlive"] = func(in *Interp, fr *frame, fn *ssa.Function, a []value) value { return nil }
 	I["os.Getenv"] = func(in *Interp, fr *frame, fn *ssa.Function, a []value) value { return "" }
 
+	// Prometheus counter vectors: still no-ops, but a vector has an identity and hands out
+	// the same child for the same label values, so that harnesses can read how often a
+	// counter was incremented (vfCounter)
+	const promP = "github.com/prometheus/client_golang/prometheus"
+	newVec := func(in *Interp, fr *frame, fn *ssa.Function, a []value) value {
+		p := new(value)
+		*p = &Opaque{name: "CounterVec"}
+		return p
+	}
+	I[promP+".NewCounterVec"] = newVec
+	I["("+promP+"/promauto.Factory).NewCounterVec"] = newVec
+	I["(*"+promP+".CounterVec).WithLabelValues"] = func(in *Interp, fr *frame, fn *ssa.Function, a []value) value {
+		mkChild := func() value {
+			return in.noopResults(fn.Signature, a, "CounterVec.WithLabelValues")
+		}
+		p, ok := a[0].(*value)
+		if !ok || p == nil {
+			return mkChild()
+		}
+		o, ok := (*p).(*Opaque)
+		if !ok {
+			return mkChild()
+		}
+		key := ""
+		if len(a) > 1 {
+			if vs, ok := a[1].([]value); ok {
+				for _, v := range vs {
+					if str, ok := concreteStr(v); ok {
+						key += str + "\x00"
+					} else {
+						key += "?\x00"
+					}
+				}
+			}
+		}
+		if o.children == nil {
+			o.children = map[string]value{}
+		}
+		if c, ok := o.children[key]; ok {
+			return c
+		}
+		c := mkChild()
+		o.children[key] = c
+		return c
+	}
+
 	// regexp: native, concrete only
 	I["regexp.Compile"] = func(in *Interp, fr *frame, fn *ssa.Function, a []value) value {
 		if _, ok := concreteStr(a[0]); !ok {
